@@ -1785,8 +1785,18 @@ dt_dtcmp(struct dt_dt_s d1, struct dt_dt_s d2)
 	case DT_DUNK:
 	default:
 		goto try_time;
+	case DT_JDN:
+		/* floats, their bit patterns don't order */
+		if (d1.d.jdn < d2.d.jdn) {
+			return -1;
+		} else if (d1.d.jdn > d2.d.jdn) {
+			return 1;
+		}
+		goto try_time;
 	case DT_YMD:
 	case DT_DAISY:
+	case DT_LDN:
+	case DT_MDN:
 	case DT_BIZDA:
 	case DT_YWD:
 	case DT_YD:
